@@ -170,14 +170,14 @@ Theorem wlc_smooth_some bs p bs' : wlc_smooth bs = Some (p, bs') ->
 Proof.
   unfold wlc_smooth. destruct (least_conns bs) as [cands|] eqn:E; [|discriminate].
   pose proof (candidates_exact bs cands E) as Hex.
-  assert (Hgen : forall q upd, smooth (map fst cands) = Some (q, upd) -> exists c, minimal_in bs c /\ wb_id c = q).
-  { intros q upd Hs. destruct (smooth_some _ _ _ Hs) as [[b [Hb [He Hid]]] _].
+  assert (Hgen : forall l, l = map fst cands -> forall q upd, smooth l = Some (q, upd) -> exists c, minimal_in bs c /\ wb_id c = q).
+  { intros l El q upd Hs. subst l. destruct (smooth_some _ _ _ Hs) as [[b [Hb [He Hid]]] _].
     apply in_map_iff in Hb. destruct Hb as [c [Ec Hc]]. exists c. split; [apply Hex; exact Hc|]. subst b. exact Hid. }
   destruct cands as [|c [|c2 r]].
   - simpl. discriminate.
   - intros H; inversion H; subst. split; [|reflexivity]. exists c. split; [apply Hex; left; reflexivity|reflexivity].
   - destruct (smooth (map fst (c :: c2 :: r))) as [[q upd]|] eqn:Es; [|discriminate]. intros H; inversion H; subst.
-    split; [eapply Hgen; exact Es|apply put_back_pj].
+    split; [eapply Hgen; [reflexivity|exact Es]|apply put_back_pj].
 Qed.
 
 Theorem wlc_smooth_none bs : wlc_smooth bs = None <-> filter wb_elig bs = [].
@@ -190,4 +190,84 @@ Proof.
   destruct cands as [|c [|c2 r]]; [congruence|discriminate|].
   destruct (smooth (map fst (c :: c2 :: r))) as [[q upd]|] eqn:Es; [discriminate|].
   apply smooth_none in Es. contradiction.
+Qed.
+
+(* ------------------------------------------------------------------------------------------- *)
+(* The model run satisfies the executable specification wspec on every operation history.        *)
+Definition wproj (b : wb) : Z * Z * bool * Z := (wb_id b, wb_w b, b_av (fst b), wb_conn b).
+
+Lemma wc_elig_proj b : wc_elig (wproj b) = wb_elig b.
+Proof. destruct b as [[[[i w] c] a] n]. reflexivity. Qed.
+Lemma filter_wproj bs : filter wc_elig (map wproj bs) = map wproj (filter wb_elig bs).
+Proof.
+  induction bs as [|b r IH]; [reflexivity|]. cbn [filter map]. rewrite wc_elig_proj. destruct (wb_elig b); cbn [map]; rewrite IH; reflexivity.
+Qed.
+
+Lemma minimal_pick_ok bs c : minimal_in bs c -> minimal_pick (map wproj bs) (wb_id c) = true.
+Proof.
+  intros [Hin [Hel Hmin]]. unfold minimal_pick. rewrite filter_wproj.
+  assert (Hc : In c (filter wb_elig bs)) by (apply filter_In; tauto).
+  destruct (filter wb_elig bs) as [|x r] eqn:E; [contradiction|]. rewrite <- E in *. clear E x r.
+  destruct (map wproj (filter wb_elig bs)) as [|y ys] eqn:E2.
+  { apply (in_map wproj) in Hc. rewrite E2 in Hc. contradiction. }
+  rewrite <- E2. clear E2 y ys.
+  apply existsb_exists. exists (wproj c). split; [apply in_map; exact Hc|].
+  destruct c as [[[[i w] cc] a] n] eqn:Ec. unfold wproj at 1. simpl. unfold wb_id at 1. simpl. rewrite Z.eqb_refl. simpl.
+  apply forallb_forall. intros y Hy. apply in_map_iff in Hy. destruct Hy as [b [Eb Hb]]. subst y.
+  apply filter_In in Hb. destruct Hb as [Hb He]. specialize (Hmin b Hb He).
+  destruct b as [[[[i' w'] c'] a'] n']. unfold wproj. simpl. unfold wb_conn, wb_w in Hmin. simpl in Hmin.
+  apply Z.leb_le. exact Hmin.
+Qed.
+Lemma minimal_pick_none bs : filter wb_elig bs = [] -> minimal_pick (map wproj bs) (-1) = true.
+Proof. intros H. unfold minimal_pick. rewrite filter_wproj, H. reflexivity. Qed.
+
+Lemma put_back_wproj bs upd : map wproj (put_back bs upd) = map wproj bs.
+Proof.
+  unfold put_back. rewrite map_map. apply map_ext. intros [b n]. unfold wb_id. simpl.
+  destruct (find_c (b_id b) upd); [|reflexivity]. destruct b as [[[i w] c0] a]. reflexivity.
+Qed.
+Lemma wlc_smooth_wproj bs p bs' : wlc_smooth bs = Some (p, bs') -> map wproj bs' = map wproj bs.
+Proof.
+  unfold wlc_smooth. destruct (least_conns bs) as [[|c [|c2 r]]|]; try discriminate.
+  - intros H; inversion H; reflexivity.
+  - destruct (smooth _) as [[q upd]|]; [|discriminate]. intros H; inversion H; subst. apply put_back_wproj.
+Qed.
+Lemma wproj_set_conn bs id n :
+  map wproj (set_conn bs id n) = map (fun b : Z * Z * bool * Z => let '(i, w, a, _) := b in if i =? id then (i, w, a, n) else b) (map wproj bs).
+Proof.
+  unfold set_conn. rewrite !map_map. apply map_ext. intros [[[[i w] c] a] m]. cbv [wb_id wproj wb_w wb_conn b_id b_w b_av fst snd].
+  destruct (i =? id); reflexivity.
+Qed.
+Lemma wproj_set_av bs id a :
+  map wproj (set_av bs id a) = map (fun b : Z * Z * bool * Z => let '(i, w, _, n) := b in if i =? id then (i, w, a, n) else b) (map wproj bs).
+Proof.
+  unfold set_av. rewrite !map_map. apply map_ext. intros [[[[i w] c] a0] m]. cbv [wb_id wproj wb_w wb_conn b_id b_w b_av fst snd].
+  destruct (i =? id); reflexivity.
+Qed.
+
+Theorem wrun_spec : forall ops bs, wspec (map wproj bs) ops (wrun bs ops) = true.
+Proof.
+  induction ops as [|o r IH]; intros bs; [reflexivity|]. destruct o as [[|]|id n|id a]; simpl.
+  - destruct (wlc_smooth bs) as [[p bs']|] eqn:E; simpl.
+    + destruct (wlc_smooth_some _ _ _ E) as [[c [Hc Hid]] _]. subst p. rewrite (minimal_pick_ok bs c Hc). simpl.
+      rewrite <- (wlc_smooth_wproj _ _ _ E). apply IH.
+    + apply wlc_smooth_none in E. rewrite (minimal_pick_none bs E). simpl. apply IH.
+  - destruct (least_conns bs) as [[|c cr]|] eqn:E; simpl.
+    + exfalso. exact (candidates_nonempty bs [] E eq_refl).
+    + assert (Hc : minimal_in bs c) by (apply (candidates_exact bs _ E); left; reflexivity).
+      rewrite (minimal_pick_ok bs c Hc). simpl. apply IH.
+    + apply least_conns_none in E. rewrite (minimal_pick_none bs E). simpl. apply IH.
+  - rewrite <- wproj_set_conn. apply IH.
+  - rewrite <- wproj_set_av. apply IH.
+Qed.
+
+From Bfe Require Import run.RunC04.
+Lemma as_LZ_vLZ l : as_LZ (vLZ l) = Some l.
+Proof. unfold as_LZ, vLZ. rewrite map_map. simpl. induction l as [|x r IH]; [reflexivity|]. simpl. rewrite IH. reflexivity. Qed.
+Lemma wproj_init conf : map wproj (winit conf) = wc_init conf.
+Proof. unfold winit, wc_init. rewrite map_map. apply map_ext. intros [i w]. reflexivity. Qed.
+
+Theorem prop_of_model_C04 : forall i conf ops, dec_in i = Some (conf, ops) -> prop_C04 i (run_C04 i) = true.
+Proof.
+  intros i conf ops H. unfold prop_C04, run_C04. rewrite H, as_LZ_vLZ, <- wproj_init. apply wrun_spec.
 Qed.
